@@ -18,6 +18,9 @@ use std::sync::{atomic::AtomicUsize, Arc};
 use fetch::RequestItem;
 use tracing::Instrument;
 pub(crate) use validator_addrs::*;
+// verif hook: alias reachable from `crate::verif` (the explicit private import below shadows the glob above).
+#[cfg(feature = "verif")]
+pub(crate) use validator_addrs::ValidatorAddrsWatch as VerifValidatorAddrsWatch;
 use zksync_concurrency::{ctx, scope, sync};
 use zksync_consensus_engine::{EngineManager, Transaction};
 use zksync_consensus_roles::{node, validator};
@@ -157,3 +160,15 @@ impl Network {
         .await;
     }
 }
+
+#[cfg(feature = "verif")]
+#[path = "../verif/handshake_gossip.rs"]
+pub(crate) mod verif_handshake;
+
+#[cfg(feature = "verif")]
+#[path = "../verif/fetch_gossip.rs"]
+pub mod verif_fetch;
+
+#[cfg(feature = "verif")]
+#[path = "../verif/entry_gossip.rs"]
+pub(crate) mod verif_entry;
